@@ -228,10 +228,11 @@ def build_stiffness(ls, g):
     return pp.FourthOrderTensor(ls["mu"] * f1, ls["lmbda"] * f2)
 
 
-def build_alphas(a_scalar, a_diag, g, het_seed=0):
-    """Two Biot coupling terms: a float and a heterogeneous diagonal SecondOrderTensor."""
+def build_alphas(a_scalar, a_diag, g, het_seed=0, amp=None):
+    """Two Biot coupling terms: a float and a cell-wise heterogeneous diagonal SecondOrderTensor
+    (cell factor exp(u log amp), u uniform in [-1,1]; amp = e^0.5 if not given)."""
     import porepy as pp
 
-    f = np.exp(np.random.default_rng(het_seed).uniform(-0.5, 0.5, g.num_cells))
+    f = np.exp(np.random.default_rng(het_seed).uniform(-1, 1, g.num_cells) * np.log(amp if amp else np.exp(0.5)))
     d = np.asarray(a_diag, dtype=float)
     return {"a": float(a_scalar), "b": pp.SecondOrderTensor(kxx=d[0] * f, kyy=d[1] * f, kzz=d[2] * f)}
